@@ -2,10 +2,12 @@
 # regress_seeded.sh : run every seeded change against its owning property's quick check (correspondence part; the
 # Coq theorems do not depend on /repo except through the generated tables, which the C19/C20 checks rebuild)
 cd /verif
-out=seeded/REGRESSION.txt; : > $out
+out=seeded/REGRESSION.txt; [ -n "$RESUME" ] || : > $out
 for d in seeded/C*/; do
   m=$(basename $d); p=${m:0:3}
-  r=$(tools/try_mutation.sh /verif/seeded/$m $p 2>&1 | grep -E "VIOLATION|OK|not clean|does not apply" | head -1)
+  grep -q "^$m " $out && continue
+  np=1; case $p in C19|C20) np=0;; esac
+  r=$(VERIF_NO_PROOF=$np tools/try_mutation.sh /verif/seeded/$m $p 2>&1 | grep -E "VIOLATION|OK|not clean|does not apply" | head -1)
   echo "$m $r" | tee -a $out
 done
 echo "done: $(grep -c VIOLATION $out) reported, $(grep -c 'no-failing-input-found' $out) without a failing input, $(grep -vc VIOLATION $out) not reported" | tee -a $out
